@@ -741,6 +741,12 @@ func raceRun(bin, tier string, seed uint64) string {
 }
 
 func waitScenario(state waitState, api, mode string) string {
+	return waitScenarioAfter(state, api, mode, 40*time.Millisecond)
+}
+
+// waitScenarioAfter: the context ends `wait` after the call was started (later = deeper into the
+// retry schedule: the back-off has grown).
+func waitScenarioAfter(state waitState, api, mode string, wait time.Duration) string {
 	setSleepOverride(nil)
 	rng := NewRNG(1, "c13")
 	c := buildCluster(rng)
@@ -749,7 +755,7 @@ func waitScenario(state waitState, api, mode string) string {
 	defer sc.cl.Close()
 	ctx, cancel := context.WithCancel(context.Background())
 	if mode == "deadline" {
-		ctx, cancel = context.WithTimeout(context.Background(), 40*time.Millisecond)
+		ctx, cancel = context.WithTimeout(context.Background(), wait)
 	} else if mode == "cancelwd" {
 		// cancelled explicitly although it also carries a (far) deadline
 		ctx, cancel = context.WithTimeout(context.Background(), time.Hour)
@@ -761,7 +767,7 @@ func waitScenario(state waitState, api, mode string) string {
 	select {
 	case r := <-resCh:
 		early = r
-	case <-time.After(40 * time.Millisecond):
+	case <-time.After(wait):
 	}
 	t0 := time.Now()
 	if mode == "cancel" || mode == "cancelwd" {
@@ -780,7 +786,11 @@ func waitScenario(state waitState, api, mode string) string {
 	} else {
 		res = "early:" + early
 	}
-	return fmt.Sprintf("c13 wait %s %s %s %d %s", state.name, api, mode, lat.Microseconds(), res)
+	name := state.name
+	if wait != 40*time.Millisecond {
+		name = fmt.Sprintf("%s@%dms", name, wait.Milliseconds())
+	}
+	return fmt.Sprintf("c13 wait %s %s %s %d %s", name, api, mode, lat.Microseconds(), res)
 }
 
 // scanOpenScenario (C13): a scan has a region scanner open at the server (the first Next returned a
@@ -1379,6 +1389,12 @@ func init() {
 				for _, mode := range []string{"cancel", "deadline", "cancelwd"} {
 					st, api, mode := st, api, mode
 					jobs = append(jobs, func() string { return waitScenario(st, api, mode) })
+					if tier != "quick" {
+						for _, w := range []time.Duration{5 * time.Millisecond, 150 * time.Millisecond, 1200 * time.Millisecond} {
+							w := w
+							jobs = append(jobs, func() string { return waitScenarioAfter(st, api, mode, w) })
+						}
+					}
 				}
 			}
 		}
